@@ -34,7 +34,27 @@ def schemes_of(names):
     return [Scheme(n) for n in names] if names else None
 
 
+# Histories (Session.tla / SessionApi.tla: the observation of a call is a function of the call alone).  Every load
+# the harness makes is the SECOND call of a two-call history: first a primer text is loaded in the same process.
+# The primers leave behind whatever a loader could wrongly keep: a text that ENDS inside a headed expressions block,
+# one that ends in a comment, one that ends in a declaration block, one that gives the usual names other roles and
+# other components.  A loader without memory gives the same model either way (and costs one tenth of a second).
+PRIMERS = [
+    'states("Zp", x=1)\nparameters("Zp", p=2)\nexpressions("Zp")\ndx_dt = p*x\n',
+    'parameters(x=1, y=2)\nstates(p=0.5, u=1)\ndp_dt = x - p # mV\ndu_dt = y*u\n# the end',
+    'states("Zq", "Zr", q=1)\nparameters("Zq", U=3)\nexpressions("Zq", "Zr")\nk = 2\n\n# about q\ndq_dt = k - q\n',
+    'states("Zp", x=ScalarParam(1, unit="mV", description="primer"))\nexpressions("Zp") # header\ni = -x # pA\ndx_dt = i\nexpressions("Zs")\nc = i + 1\n',
+]
+_PRIME = {"on": os.environ.get("VERIF_PRIME", "1") != "0", "n": 0}
+
+
 def load(text: str, name: str = "ode"):
+    if _PRIME["on"]:
+        _PRIME["n"] += 1
+        try:
+            ode_from_string(PRIMERS[_PRIME["n"] % len(PRIMERS)], name="primer")
+        except Exception:  # noqa: BLE001  a primer that does not load primes nothing; the text below is what is judged
+            pass
     return ode_from_string(text, name=name)
 
 
